@@ -899,6 +899,7 @@ class Pass2(CompilePass):
         self.compilation.perform_argument_matching(node, 'sub')
 
     def process_for_block_pre(self, node):
+        self._check_not_const(node.var)
         if not node.var.base_type.is_numeric:
             raise CompileError(
                 EC.TYPE_MISMATCH,
@@ -911,14 +912,22 @@ class Pass2(CompilePass):
 
     def process_input_pre(self, node):
         for lvalue in node.var_list:
+            self._check_not_const(lvalue)
             if not lvalue.type.is_builtin:
                 raise CompileError(
                     EC.TYPE_MISMATCH,
                     'Input can only have builtin types',
                     node=lvalue)
 
+    def _check_not_const(self, lvalue):
+        # READ, INPUT and FOR store into their target: a name declared
+        # with CONST cannot be one (same report as assigning to it)
+        if isinstance(lvalue, Lvalue) and lvalue.is_const:
+            raise CompileError(EC.DUPLICATE_DEFINITION, node=lvalue)
+
     def process_read_pre(self, node):
         for lvalue in node.var_list:
+            self._check_not_const(lvalue)
             if not lvalue.type.is_builtin:
                 raise CompileError(
                     EC.TYPE_MISMATCH,
